@@ -1137,6 +1137,159 @@ def _stream_topo(ctx):
 
 
 # ------------------------------------------------------------------------------------------------
+# combinations of walker options (order x reverse x max_entries x window x exclude) and the laws between them
+
+def walk_grid(n_reach: int):
+    """order x reverse x max_entries in {None, 0, 1, 2, N-1, N, N+1} (N = commits reachable from the includes)"""
+    maxes = [None] + sorted({m for m in (0, 1, 2, n_reach - 1, n_reach, n_reach + 1) if m >= 0})
+    return [(topo, rev, mx) for topo in (False, True) for rev in (False, True) for mx in maxes]
+
+
+def check_walk_laws(h: Hist, base: dict, res: dict):
+    """Laws between the walks of one (history, include, exclude, since, until) under all (order, reverse,
+    max_entries); `res[(topo, rev, max)]` = what the real walker returned.  They hold for every clock:
+      reverse      walk(reverse=True) == reversed(walk(reverse=False))   (so the limit is applied before reversing)
+      prefix       date order: walk(max_entries=N) == walk(max_entries=None)[:N]
+      order-only   topo order yields the same commits as date order under the same other options
+                   (Walker limits first and sorts what is left; git -n --topo-order limits the sorted list instead,
+                   which dulwich does not document, so only the set is demanded)
+    returns [(options, what)]"""
+    bad = []
+
+    def opt(k):
+        return dict(base, topo=k[0], rev=k[1], max=k[2])
+    for (topo, rev, mx), got in res.items():
+        if isinstance(got, str):
+            continue
+        if rev:
+            fwd = res.get((topo, False, mx))
+            if fwd is not None and not isinstance(fwd, str) and got != list(reversed(fwd)):
+                bad.append((opt((topo, rev, mx)), f"reverse=True gives {got}, reversed(reverse=False) is {list(reversed(fwd))}"))
+        if not topo and not rev and mx is not None:
+            full = res.get((False, False, None))
+            if full is not None and not isinstance(full, str) and got != full[:mx]:
+                bad.append((opt((topo, rev, mx)), f"max_entries={mx} gives {got}, prefix of the unlimited walk is {full[:mx]}"))
+        if topo and not rev:
+            date = res.get((False, False, mx))
+            if date is not None and not isinstance(date, str) and sorted(got) != sorted(date):
+                bad.append((opt((topo, rev, mx)), f"topo order yields {sorted(got)}, date order {sorted(date)}"))
+    return bad
+
+
+def _grid_bases_exhaustive(h: Hist, incl, with_excl=True):
+    """every window (none / since=v / until=v for each distinct stamp / one since+until) x every single exclude"""
+    vals = sorted(set(h.ts))
+    wins = [(None, None)] + [(v, None) for v in vals] + [(None, v) for v in vals]
+    if len(vals) >= 2:
+        wins.append((vals[0 if len(vals) < 3 else 1], vals[-1 if len(vals) < 3 else -2]))
+    excls = [[]] + ([[c] for c in range(h.n) if c not in incl] if with_excl else [])
+    return [{"incl": list(incl), "excl": e, "since": s_, "until": u} for (s_, u) in wins for e in excls]
+
+
+def _run_walk_grid(ctx, stream, items, use_model=True):
+    """items: (tag, RealHist, [base option dicts in model ids]).  Every base is expanded over walk_grid; each walk
+    goes to the model (correspondence), to the property oracle (classify_walk) and the laws are checked on the
+    real results."""
+    lines, meta = [], []
+    for tag, rh, bases in items:
+        h = rh.hm
+        qs = []
+        for b in bases:
+            nr = bin(h.reach(b["incl"])).count("1")
+            for (topo, rev, mx) in walk_grid(nr):
+                qs.append(dict(b, topo=topo, rev=rev, max=mx))
+        if not qs:
+            continue
+        # the driver reads one line per history; keep lines moderate
+        for i in range(0, len(qs), 400):
+            chunk = qs[i:i + 400]
+            lines.append("c13.q " + h.enc() + " " + " ".join(walk_query(o) for o in chunk))
+            meta.append((tag, rh, chunk))
+    outs = ctx.driver.batch(lines) if (lines and use_model) else [None] * len(lines)
+    for (tag, rh, chunk), mo in zip(meta, outs):
+        if len(ctx.oracle_failures) > 200:   # enough concrete cases
+            break
+        h = rh.hm
+        ms = mo.split(";") if mo is not None else [None] * len(chunk)
+        if len(ms) != len(chunk):
+            ctx.disagree(stream, {"history": h.case()}, str(mo)[:200], f"{len(chunk)} answers expected", "driver")
+            continue
+        groups = {}
+        for o, m in zip(chunk, ms):
+            got = real_walk(rh, o)
+            qstr = walk_query(o)
+            ctx.count(stream, (h.enc(), qstr), True,
+                      f"{tag}:{'topo' if o['topo'] else 'date'}:{'rev' if o['rev'] else 'fwd'}:"
+                      f"max={'none' if o['max'] is None else 'n'}:{'excl' if o['excl'] else 'noexcl'}:"
+                      f"{'win' if (o['since'] is not None or o['until'] is not None) else 'nowin'}")
+            if m is not None and _show_ans(got) != m:
+                ctx.disagree(stream, {"history": h.case(), "query": qstr}, m, _show_ans(got), "walker-options")
+            r = classify_walk(h, o, got)
+            if r is not None:
+                _record_fail(ctx, stream, h.case(), qstr, _show_ans(got), r[0], r[1], rh=rh)
+            key = (tuple(o["incl"]), tuple(o["excl"]), o["since"], o["until"])
+            groups.setdefault(key, ({k: o[k] for k in ("incl", "excl", "since", "until")}, {}))[1][
+                (o["topo"], o["rev"], o["max"])] = got
+        for base, res in groups.values():
+            for o, what in check_walk_laws(h, base, res):
+                _record_fail(ctx, stream, h.case(), walk_query(o), _show_ans(res[(o["topo"], o["rev"], o["max"])]),
+                             "law: " + what, None, rh=rh)
+
+
+def _grid_histories(rng, thorough=False):
+    """linear histories of 1..8 commits and a few small DAGs of 5..8, under clocks that are strictly increasing,
+    all equal, running backwards and zig-zag"""
+    out = []
+    shapes = [("chain", lambda n: [[c - 1] if c else [] for c in range(n)], range(1, 9)),
+              ("diamonds", lambda n: [[] if c == 0 else ([c - 1] if c % 3 else sorted({c - 1, c - 3})) for c in range(n)], (5, 7)),
+              ("crisscross", lambda n: [[] if c < 2 else sorted({c - 1, c - 2}) for c in range(n)], (5, 6, 8))]
+    for name, mk, sizes in shapes:
+        for n in sizes:
+            P = mk(n)
+            clocks = {"strict": list(range(n)), "equal": [3] * n, "backwards": [n - c for c in range(n)],
+                      "zigzag": [(c % 2) * 5 + c // 2 for c in range(n)]}
+            for cname, ts in clocks.items():
+                out.append((f"{name}{n}/{cname}", Hist(P, ts)))
+    return out
+
+
+def _stream_walk_grid(ctx):
+    """`walk.grid`: every combination of order x reverse x max_entries, with every window and every single exclude
+    on short linear histories and small DAGs; with a sampled window/exclude on all exhaustive small histories and on
+    random larger ones."""
+    rng = ctx.rng
+    items = []
+    for tag, h0 in _grid_histories(rng):
+        rh = RealHist(h0, nonce=rng.randrange(50))
+        tip = rh.rank[h0.n - 1]
+        bases = _grid_bases_exhaustive(rh.hm, [tip], with_excl=h0.n <= 6)
+        if h0.n >= 3:
+            bases += _grid_bases_exhaustive(rh.hm, sorted({tip, rh.rank[h0.n // 2]}), with_excl=False)[:6]
+        items.append(("fixed:" + tag.split("/")[1], rh, bases))
+    # all exhaustive small histories: the plain base and one sampled window/exclude
+    for n in range(1, 5):
+        for P in topo_dags(n):
+            for ts in weak_orders(n):
+                if n == 4 and not ctx.thorough and rng.random() < 0.75:
+                    continue
+                rh = RealHist(Hist(P, ts), nonce=rng.randrange(4))
+                h = rh.hm
+                tip = rh.rank[n - 1]
+                bases = [{"incl": [tip], "excl": [], "since": None, "until": None}]
+                o = gen_walk_opts(rng, h)
+                if o["since"] is None and o["until"] is None and not o["excl"]:
+                    o["until"] = rng.choice(h.ts)
+                bases.append({k: o[k] for k in ("incl", "excl", "since", "until")})
+                items.append((f"small:n{n}", rh, bases))
+    for _ in range(ctx.budget(60)):
+        shape, mode, h = gen_hist(rng, big=rng.random() < 0.15)
+        rh = RealHist(h, nonce=rng.randrange(1000))
+        o = gen_walk_opts(rng, rh.hm)
+        items.append((f"random:{mode}", rh, [{k: o[k] for k in ("incl", "excl", "since", "until")}]))
+    _run_walk_grid(ctx, "walk.grid", items)
+
+
+# ------------------------------------------------------------------------------------------------
 # walks with excludes on tied commit times (histories longer than the exhaustive bound)
 
 def gen_tie_history(rng, k=None, a=None, t=None, shape=None, stamps=None):
@@ -1346,7 +1499,12 @@ def _stream_git(ctx):
                     if o["until"] is not None:
                         args.append(f"--min-age={o['until']}")
                     if o["max"] is not None:
-                        continue  # git applies --max-count before --reverse: different contract
+                        # -n N: git too limits before --reverse (the N newest, reversed).  With --topo-order git
+                        # limits the sorted list while Walker sorts the limited one: not compared.  With tied stamps
+                        # "the N newest" is not unique: only distinct stamps, no excludes / since.
+                        if o["topo"] or o["excl"] or o["since"] is not None or len(set(h.ts)) != h.n:
+                            continue
+                        args += ["-n", str(o["max"])]
                     args += [sha[c] for c in o["incl"]] + ["^" + sha[c] for c in o["excl"]]
                     rc, out, err = gh.git(*args)
                     gitans = back(out) if rc == 0 else None
@@ -1367,7 +1525,7 @@ def _stream_git(ctx):
                         if set(got) != set(gitans):
                             ctx.oracle_fail("git.W", {"history": h.case(), "query": qstr, "got": showl(got),
                                                       "git": showl(gitans)}, "walk differs from git rev-list as a set", None)
-                        elif not a["topo"] and not a["excl"] and a["since"] is None and a["until"] is None \
+                        elif not a["topo"] and not a["excl"] and a["since"] is None \
                                 and len(set(h.ts)) == h.n and got != gitans:
                             ctx.oracle_fail("git.W", {"history": h.case(), "query": qstr, "got": showl(got),
                                                       "git": showl(gitans)}, "date order differs from git rev-list", None)
@@ -1459,11 +1617,25 @@ def run(ctx: core.Ctx):
     t3 = time.time()
     _stream_topo(ctx)
     _stream_walk_ties(ctx)
+    _stream_walk_grid(ctx)
     _stream_git(ctx)
     t4 = time.time()
     ctx.extra_cov["stream_wall_s"] = {"small.lcas": round(t1 - t0, 1), "repo.small": round(t2 - t1, 1),
                                       "random": round(t3 - t2, 1), "topo+git": round(t4 - t3, 1)}
     ctx.extra_cov["c_git_comparisons"] = sum(v for k, v in ctx.streams.items() if k.startswith("git."))
+
+
+def _search_ties(ctx):
+    """oracle only: the deterministic core of the walk.ties family"""
+    rng = ctx.rng
+    for k in range(4, 13):
+        h, Y, X, B, X2, tag = gen_tie_history(rng, k=k, a=0, t=0, shape="fork", stamps="all-equal")
+        for key, rh in _tie_variants(h, Y, X, B, rng):
+            for q in _tie_queries(rng, rh, Y, X, B, X2, full=True):
+                got = _repo_eval(rh, q)
+                r = _repo_classify(rh, q, got)
+                if r:
+                    _record_fail(ctx, "search.walk.ties", rh.hm.case(), _repo_query_str(q), _show_ans(got), r[0], r[1], rh=rh)
 
 
 def search(ctx: core.Ctx):
@@ -1472,6 +1644,17 @@ def search(ctx: core.Ctx):
     then many more random histories."""
     from dulwich import graph as G  # noqa: F401
     rng = ctx.rng
+    # 0. walker: every combination of order x reverse x max_entries x window x single exclude on short linear
+    #    histories and small DAGs (oracle: the property's words + the laws between option combinations; no model)
+    items = []
+    for tag, h0 in _grid_histories(rng):
+        rh = RealHist(h0, nonce=rng.randrange(50))
+        tip = rh.rank[h0.n - 1]
+        items.append(("search:" + tag.split("/")[1], rh, _grid_bases_exhaustive(rh.hm, [tip], with_excl=h0.n <= 6)))
+    _run_walk_grid(ctx, "search.walk.grid", items, use_model=False)
+    _search_ties(ctx)
+    if ctx.oracle_failures:
+        return
     # 1. every DAG with <= 5 commits, stamps = a strictly monotone assignment (depth-based and index-based),
     #    both tie orders irrelevant (no ties along edges; unrelated commits may tie)
     for n in range(1, 6):
